@@ -873,19 +873,21 @@ pub fn hostile_rename(specs: &mut [Spec], d: &mut D) {
             Trait::FromAttributes => &["ident", "attrs"],
         };
         let rename_fields = |fs: &mut Vec<Field>, d: &mut D| {
+            // (a new name must differ from every other field's name - those renamed before it and those, further down,
+            // that keep the name they have)
             let mut used: Vec<String> = vec![];
-            for f in fs.iter_mut() {
+            for k in 0..fs.len() {
                 if d.ratio(2, 3) {
                     let mut n = d.pick(HOSTILE).to_string();
                     if magic.contains(&n.as_str()) {
                         n = format!("{}_", n);
                     }
-                    if used.contains(&n) {
+                    if used.contains(&n) || fs[k + 1..].iter().any(|g| g.rust_name == n) {
                         n = format!("{}_{}", n.trim_start_matches("r#"), used.len());
                     }
-                    f.rust_name = n;
+                    fs[k].rust_name = n;
                 }
-                used.push(f.rust_name.clone());
+                used.push(fs[k].rust_name.clone());
             }
         };
         match &mut s.body {
